@@ -7,8 +7,8 @@ from . import opwork
 ID = "C08"
 LEVEL = "exploration"
 RULE = (
-    "part A: step maps with up to 3 ranges (gap to the previous range in {0,1,2}, old/new sizes in "
-    "{0,1,2}; <=2 ranges exhaustively in quick, all 3-range maps in thorough, sampled in quick), plain "
+    "part A: all step maps with up to 3 ranges (gap to the previous range in {0,1,2}, old/new sizes in "
+    "{0,1,2}; exhaustive in both tiers), plain "
     "and inverted, every position 0..end+2, both sides: map, map_result flags, recover, touches, "
     "for_each, monotonicity, invert, mirror round trip with and without registration. part B: mappings "
     "built from the maps of random transform histories and random small maps: map/map_result vs the "
@@ -25,9 +25,7 @@ GAPS = (0, 1, 2)
 
 
 def EXHAUSTIVE(tier):
-    if tier == "thorough":
-        return "all step maps with <= 3 ranges, gaps in {0,1,2}, old/new in {0,1,2}, both inverted flags, every position 0..end+2, both sides"
-    return "all step maps with <= 2 ranges, gaps in {0,1,2}, old/new in {0,1,2}, both inverted flags, every position 0..end+2, both sides"
+    return "all step maps with <= 3 ranges, gaps in {0,1,2}, old/new in {0,1,2}, both inverted flags, every position 0..end+2, both sides"
 
 
 def all_maps(k):
@@ -74,8 +72,8 @@ def cases(tier):
     # part A chunks, then part B/C cases
     a = (len(enum_maps()) + CHUNK - 1) // CHUNK
     if tier == "quick":
-        return a + 170 + 600
-    return a + (N3 + CHUNK - 1) // CHUNK + 20000
+        return a + (N3 + CHUNK - 1) // CHUNK + 4000
+    return a + (N3 + CHUNK - 1) // CHUNK + 80000
 
 
 def floors(tier):
@@ -89,19 +87,12 @@ def case(ctx, rnd, i):
             check_stepmap(ctx, ranges)
         return
     i -= a
-    if ctx.tier == "quick":
-        if i < 170:
-            for _ in range(CHUNK):
-                check_stepmap(ctx, map3(rnd.randrange(N3)))
-            return
-        i -= 170
-    else:
-        b = (N3 + CHUNK - 1) // CHUNK
-        if i < b:
-            for idx in range(i * CHUNK, min(N3, (i + 1) * CHUNK)):
-                check_stepmap(ctx, map3(idx))
-            return
-        i -= b
+    b = (N3 + CHUNK - 1) // CHUNK
+    if i < b:
+        for idx in range(i * CHUNK, min(N3, (i + 1) * CHUNK)):
+            check_stepmap(ctx, map3(idx))
+        return
+    i -= b
     if i % 3 == 2:
         check_rebase(ctx, rnd)
     else:
